@@ -71,6 +71,8 @@ def validate(c, events, files_path, max_fail=8, timeout=1500):
     if cur:
         segs.append(cur)
     failures, nonconf, total = [], [], len(segs)
+    if not hasattr(c, "ext9_steps"):
+        c.ext9_steps = {}
     while segs:
         flat = [e for sg in segs for e in sg]
         path = os.path.join(c.scratch, "trace_in.ndjson")
@@ -78,6 +80,11 @@ def validate(c, events, files_path, max_fail=8, timeout=1500):
         r = c.tlc_trace("TraceGeoIP", "TraceGeoIP.cfg", path, timeout=timeout, heap="6g")
         if r.ok:
             nonconf = [(flat[int(t[0]) - 1], t[1]) for t in r.tuples("NONCONF")]
+            st = getattr(c, "ext9_steps", {})
+            for t in r.tuples("STEP"):
+                k = t[1].strip('"')
+                st[k] = st.get(k, 0) + 1
+            c.ext9_steps = st
             break
         why = ""
         if r.violated:
@@ -113,37 +120,556 @@ def N(b, n, asn=0, ctry="", cont="", sub="", astr=False):
     return {"b": list(b), "n": n, "asn": asn, "astr": astr, "ctry": ctry, "cont": cont, "sub": sub}
 
 
+CONT = {"US": "NA", "RU": "EU", "CN": "AS", "IN": "AS", "DE": "EU", "FR": "EU", "JP": "AS", "AU": "OC", "": ""}
+SUBS = {"US": ["WA", "CA", ""], "RU": ["MOW", "SPE", ""], "CN": ["22", ""], "IN": ["MH", ""]}
+BADMODES = ["missing", "garbage", "empty", "badmeta"]
+
+
+def v6(*hextets):
+    h = list(hextets) + [0] * (8 - len(hextets))
+    return [x for w in h for x in (w >> 8, w & 255)]
+
+
+def mapped(b):
+    return [0] * 10 + [255, 255] + list(b)
+
+
+def refresh(r="r1"):
+    return [{"a": a, "r": r} for a in ("RStart", "RSwapLoc", "RSwapCtry", "RJoin", "RSwapDB")]
+
+
+def put(kind, v):
+    return {"a": "Put", "kind": kind, "v": v}
+
+
+def data(ip=None, host="", zero=False, zone=""):
+    return {"a": "Data", "host": host, "ip": list(ip or []), "zero": zero, "zone": zone}
+
+
+def subnet(ctry="", sub="", asn=0, fam=4, lp=0):
+    return {"a": "Subnet", "l": {"ctry": ctry, "cont": "", "sub": sub, "asn": asn}, "lp": lp, "fam": fam}
+
+
+# ------------------------------------------------------------------ generated worlds (behaviours from TLC)
+def gen_world(rng, wid):
+    """a random small world: two or three versions of each database with networks of many lengths that move
+    between countries and autonomous systems, one unloadable version of each, addresses, hosts, locations"""
+    ctrs = rng.sample(["US", "RU", "CN", "IN"], 2) + rng.sample(["DE", "FR", "JP", "AU"], 2)
+    asns = rng.sample([7, 8, 9, 11, 12], 3)
+    x = rng.randrange(1, 200)
+    v4 = [([10, x, 0, 0], 16), ([10, x, 0, 0], 24), ([10, x, 1, 0], 24), ([10, x, 2, 0], 23), ([10, x, 4, 0], 22), ([10, x, 8, 16], 28),
+          ([10, x, 8, 0], 25), ([10, x + 1, 0, 0], 16), ([10, x + 1, 7, 0], 24), ([10, x + 1, 7, 9], 32), ([11, 0, 0, 0], 8),
+          ([10, x, 9, 0], 24)]
+    v6n = [(v6(0x2001, 0xdb8, x), 48), (v6(0x2001, 0xdb8, x, 0x100), 56), (v6(0x2001, 0xdb8, x, 0x200), 64), (v6(0x2001, 0xdb9), 32),
+           (v6(0x2001, 0xdb8, x, 0x300), 60)]
+    files, versA, versC = [], [], []
+
+    def ctry_rec(b, n):
+        c = rng.choice(ctrs + [""]) if rng.random() < 0.9 else rng.choice(ctrs)
+        sub = rng.choice(SUBS.get(c, [""]))
+        return N(b, n, 0, c, CONT[c], sub)
+    for k in range(rng.choice([2, 2, 3])):
+        nets = [N(b, n, rng.choice(asns + [0, 99])) for b, n in rng.sample(v4, rng.randrange(3, 7))]
+        nets += [N(b, n, rng.choice(asns + [99])) for b, n in rng.sample(v6n, rng.randrange(1, 3))]
+        files.append({"kind": "A", "mode": "ok", "nets": nets})
+        versA.append(len(files))
+    files.append({"kind": "A", "mode": rng.choice(BADMODES), "nets": []})
+    versA.append(len(files))
+    for k in range(rng.choice([2, 2, 3])):
+        nets = [ctry_rec(b, n) for b, n in rng.sample(v4, rng.randrange(3, 7))]
+        nets += [ctry_rec(b, n) for b, n in rng.sample(v6n, rng.randrange(1, 4))]
+        if rng.random() < 0.3:
+            nets.append(N([10, x, 9, 0], 24, 0, rng.choice(ctrs), "ZZ", ""))   # a continent code NewContinent rejects
+        files.append({"kind": "C", "mode": "ok", "nets": nets})
+        versC.append(len(files))
+    files.append({"kind": "C", "mode": rng.choice(BADMODES), "nets": []})
+    versC.append(len(files))
+    tops = [[c, rng.choice(asns)] for c in rng.sample(ctrs, rng.randrange(1, 4))]
+    alltop = sorted(set(a for _, a in tops) | set(rng.sample(asns, 1)))
+    addrs = [[10, x, 0, 1], [10, x, 0, 200], [10, x, 1, 1], mapped([10, x, 0, 7]), [10, x, 8, 17], [10, x, 8, 130], [10, x + 1, 7, 9],
+             [10, x, 9, 5], [11, 2, 3, 4], [9, 9, 9, 9], v6(0x2001, 0xdb8, x, 0x100, 1), v6(0x2001, 0xdb8, x, 0x1ff, 2),
+             v6(0x2001, 0xdb8, x, 0x200, 3), v6(0x2001, 0xdb9, 5), [0] * 12 + [10, x, 0, 1]]
+    addrs = rng.sample(addrs, 7)
+    locs = []
+    for _ in range(5):
+        c = rng.choice(ctrs + ["", "BR"])
+        locs.append({"ctry": c, "cont": "", "sub": rng.choice(SUBS.get(c, [""])), "asn": rng.choice(asns + [0, 99, 25159])})
+    return {"id": wid, "src": "sim", "hostcap": rng.choice([0, 1, 2]), "ipcap": rng.choice([1, 2, 3]), "tops": tops, "alltop": alltop,
+            "files": files, "versA": versA, "versC": versC, "addrs": addrs, "hosts": ["", "h1", "h2"], "locs": locs}
+
+
+def tla_str(s):
+    return '"%s"' % s
+
+
+def tla_seq(l):
+    return "<<" + ", ".join(str(x) for x in l) + ">>"
+
+
+def tla_net(n):
+    return '[b |-> %s, n |-> %d, asn |-> %d, astr |-> %s, ctry |-> "%s", cont |-> "%s", sub |-> "%s"]' % (
+        tla_seq(n["b"]), n["n"], n["asn"], "TRUE" if n["astr"] else "FALSE", n["ctry"], n["cont"], n["sub"])
+
+
+def tla_loc(l):
+    return '[ctry |-> "%s", cont |-> "%s", sub |-> "%s", asn |-> %d]' % (l["ctry"], l.get("cont", ""), l["sub"], l["asn"])
+
+
+def render_worlds(worlds):
+    """GeoIP_simw.tla: the generated worlds as constants of GeoIP.tla.  The versions of all worlds form one
+    sequence WFiles; every world names its own by index."""
+    files, confs, off = [], [], 0
+    for w in worlds:
+        for f in w["files"]:
+            files.append('  [kind |-> "%s", mode |-> "%s", nets |-> <<%s>>]' % (
+                f["kind"], f["mode"], ", ".join(tla_net(n) for n in f["nets"])))
+        tops = " @@ ".join('("%s" :> %d)' % (c, a) for c, a in w["tops"]) or "[c \\in {} |-> 0]"
+        confs.append('  [id |-> "%s", hostcap |-> %d, ipcap |-> %d, tops |-> %s, alltop |-> {%s}, versA |-> {%s}, versC |-> {%s},\n'
+                     '   disk0 |-> [A |-> %d, C |-> %d], addrs |-> {%s},\n   hosts |-> {%s}, locs |-> {%s}]' % (
+                         w["id"], w["hostcap"], w["ipcap"], tops, ", ".join(map(str, w["alltop"])),
+                         ", ".join(str(off + v) for v in w["versA"]), ", ".join(str(off + v) for v in w["versC"]),
+                         off + w["versA"][0], off + w["versC"][0], ", ".join(tla_seq(a) for a in w["addrs"]), ", ".join(tla_str(h) for h in w["hosts"]),
+                         ", ".join(tla_loc(l) for l in w["locs"])))
+        w["off"] = off
+        off += len(w["files"])
+    return ("---- MODULE GeoIP_simw ----\n(* generated by tools/checks/ext9.py: the worlds of this run *)\nEXTENDS GeoIP\n\n"
+            "WFiles == <<\n%s\n>>\n\nWConfs == {\n%s\n}\n====\n" % (",\n".join(files), ",\n".join(confs)))
+
+
+def behaviours_to_worlds(worlds, behs):
+    """one world instance per behaviour: the configuration and files of its world, the steps TLC chose"""
+    byid = {w["id"]: w for w in worlds}
+    res, acts = [], {}
+    for bi, b in enumerate(behs):
+        w = byid[b[0]["w"]]
+        steps = []
+        for s in b:
+            acts[s["a"]] = acts.get(s["a"], 0) + 1
+            if s["a"] == "Put":
+                steps.append(put(s["kind"], s["v"] - w["off"]))
+            elif s["a"] == "Data":
+                steps.append(data(s["ip"], s["host"], s["zero"]))
+            elif s["a"] == "Subnet":
+                steps.append({"a": "Subnet", "l": s["l"], "lp": s["lp"], "fam": s["fam"]})
+            else:
+                steps.append({"a": s["a"], "r": s["r"]})
+        res.append({"id": "%s#%d" % (w["id"], bi), "src": "sim", "hostcap": w["hostcap"], "ipcap": w["ipcap"], "tops": w["tops"],
+                    "alltop": w["alltop"], "files": w["files"], "disk0": [w["versA"][0], w["versC"][0]], "steps": steps})
+    return res, acts
+
+
+# ------------------------------------------------------------------ scripted worlds
+SMALL_TOPS = [["AU", 1221], ["JP", 2516], ["US", 7922]]
+SHIP = {"isp": "GeoIP2-ISP-Test.mmdb", "city": "GeoIP2-City-Test.mmdb", "country": "GeoIP2-Country-Test.mmdb"}
+
+
+def shipped(kind, name):
+    return {"kind": kind, "mode": "shipped", "path": SHIP[name], "nets": []}
+
+
+def scripted_worlds(th):
+    ws = []
+    nd, ns = (2500, 700) if th else (260, 160)
+    base = [shipped("A", "isp"), shipped("C", "city"), shipped("C", "country")]
+    ws.append({"id": "shipped-table", "src": "table", "hostcap": 3, "ipcap": 100000, "tops": SMALL_TOPS, "alltop": [1221, 2516, 7922],
+               "files": base,
+               "steps": [put("A", 1), put("C", 2)] + refresh() + [{"a": "AutoData", "cnt": nd}, {"a": "AutoSubnet", "cnt": ns},
+                                                                  put("C", 3)] + refresh() +
+                        [{"a": "AutoData", "cnt": nd // 2}, {"a": "AutoSubnet", "cnt": ns // 2}]})
+    ws.append({"id": "shipped-evict", "src": "table", "hostcap": 1, "ipcap": 3, "tops": SMALL_TOPS, "alltop": [1221, 2516, 7922],
+               "files": base,
+               "steps": [put("A", 1), put("C", 3)] + refresh() + [{"a": "AutoData", "cnt": nd // 2}, {"a": "AutoSubnet", "cnt": 40}]})
+    ws.append({"id": "shipped-default-tables", "src": "table", "hostcap": 2, "ipcap": 1000, "default": True, "tops": [], "alltop": [],
+               "files": base,
+               "steps": [put("A", 1), put("C", 2)] + refresh() + [{"a": "AutoData", "cnt": nd // 4}, {"a": "AutoSubnet", "cnt": ns},
+                                                                  subnet("RU", "MOW", 25159, 4), subnet("US", "NY", 0, 4),
+                                                                  subnet("DE", "", 25159, 4)]})
+    ws.append({"id": "shipped-crosskind", "src": "table", "hostcap": 2, "ipcap": 50, "tops": SMALL_TOPS, "alltop": [1221, 2516, 7922],
+               "files": [shipped("A", "city"), shipped("C", "country"), shipped("A", "isp")],
+               "steps": [put("A", 1), put("C", 2)] + refresh() + [{"a": "AutoData", "cnt": 80}, {"a": "AutoSubnet", "cnt": 40},
+                                                                  put("A", 3)] + refresh() + [{"a": "AutoData", "cnt": 80}]})
+    # load failures of every kind, for either file, after a good refresh
+    a1 = {"kind": "A", "mode": "ok", "nets": [N([10, 0, 0, 0], 24, 7), N([10, 0, 1, 0], 24, 8), N([10, 2, 0, 0], 16, 7),
+                                               N(v6(0x2001, 0xdb8), 32, 8)]}
+    a2 = {"kind": "A", "mode": "ok", "nets": [N([10, 0, 0, 0], 24, 8), N([10, 0, 1, 0], 28, 7), N([10, 2, 0, 0], 16, 9)]}
+    c1 = {"kind": "C", "mode": "ok", "nets": [N([10, 0, 0, 0], 23, 0, "US", "NA", "WA"), N([10, 2, 0, 0], 16, 0, "DE", "EU"),
+                                               N(v6(0x2001, 0xdb8), 32, 0, "DE", "EU")]}
+    c2 = {"kind": "C", "mode": "ok", "nets": [N([10, 0, 0, 0], 24, 0, "DE", "EU"), N([10, 0, 1, 0], 24, 0, "US", "NA", "NY"),
+                                               N([10, 2, 0, 0], 16, 0, "US", "NA", "WA")]}
+    tops = [["US", 7], ["DE", 8]]
+    probe = [data([10, 0, 0, 1], "h1"), data([10, 0, 1, 1], "h2"), data([10, 0, 0, 2]), data(host="h1", zero=True),
+             data(v6(0xfe80, 0, 0, 0, 0, 0, 0, 1), "h2", zone="eth0"), data(v6(0x2001, 0xdb8, 0, 0, 0, 0, 0, 1)),
+             subnet("US", "WA", 7), subnet("US", "CA", 0), subnet("DE", "", 0), subnet("DE", "", 0, 6), subnet("FR", "", 9)]
+    for mode in BADMODES:
+        for kind in "AC":
+            bad = {"kind": kind, "mode": mode, "nets": []}
+            ws.append({"id": "loadfail-%s-%s" % (kind, mode), "src": "scripted", "hostcap": 2, "ipcap": 4, "tops": tops, "alltop": [7, 8],
+                       "files": [a1, a2, c1, c2, bad],
+                       "steps": [put("A", 1), put("C", 3)] + refresh() + probe +
+                                [put(kind, 5), put("C" if kind == "A" else "A", 4 if kind == "A" else 2)] + refresh() + probe +
+                                [put(kind, 2 if kind == "A" else 4)] + refresh() + probe})
+    # a first refresh that fails, then a good one
+    ws.append({"id": "first-refresh-fails", "src": "scripted", "hostcap": 2, "ipcap": 4, "tops": tops, "alltop": [7, 8],
+               "files": [a1, c1], "steps": [put("A", 1)] + refresh() + [put("C", 2)] + refresh() + probe})
+    # an address whose continent code is not valid: Data reports the error and caches nothing
+    cz = {"kind": "C", "mode": "ok", "nets": [N([10, 0, 0, 0], 24, 0, "US", "ZZ", "WA"), N([10, 0, 1, 0], 24, 0, "DE", "EU")]}
+    ws.append({"id": "bad-continent", "src": "scripted", "hostcap": 2, "ipcap": 4, "tops": tops, "alltop": [7, 8],
+               "files": [a1, cz], "steps": [put("A", 1), put("C", 2)] + refresh() +
+               [data([10, 0, 0, 1], "h1"), data([10, 0, 0, 1], "h1"), data(host="h1", zero=True), data([10, 0, 1, 1], "h1"),
+                data(host="h1", zero=True)]})
+    return ws
+
+
+def candidate_worlds():
+    """worlds in which the pinned code is known to leave the contract (see the findings of the report)"""
+    ws = []
+    tops = [["US", 7], ["DE", 8]]
+    a1 = {"kind": "A", "mode": "ok", "nets": [N([10, 0, 0, 0], 24, 7), N([10, 0, 1, 0], 24, 8), N([10, 2, 0, 0], 16, 7)]}
+    a2 = {"kind": "A", "mode": "ok", "nets": [N([10, 0, 0, 0], 24, 8), N([10, 0, 1, 0], 24, 7), N([10, 3, 0, 0], 16, 7)]}
+    c1 = {"kind": "C", "mode": "ok", "nets": [N([10, 0, 0, 0], 23, 0, "US", "NA", "WA"), N([10, 2, 0, 0], 16, 0, "DE", "EU")]}
+    c2 = {"kind": "C", "mode": "ok", "nets": [N([10, 0, 0, 0], 24, 0, "DE", "EU"), N([10, 0, 1, 0], 24, 0, "US", "NA", "NY"),
+                                               N([10, 3, 0, 0], 16, 0, "FR", "EU")]}
+    probe = [data([10, 0, 0, 1], "h1"), subnet("US", "WA", 7), subnet("US", "CA", 0), subnet("DE", "", 0), subnet("FR", "", 9)]
+    # scans that fail: an unknown country code in the new country database (both scans fail, or only the country
+    # scan when no ASN network lies there), an ASN record that cannot be decoded (only the location scan fails)
+    cbad = {"kind": "C", "mode": "ok", "nets": [N([10, 0, 0, 0], 24, 0, "A1", "", ""), N([10, 2, 0, 0], 16, 0, "DE", "EU")]}
+    cbad2 = {"kind": "C", "mode": "ok", "nets": [N([10, 77, 0, 0], 24, 0, "A1", "", ""), N([10, 2, 0, 0], 16, 0, "FR", "EU")]}
+    abad = {"kind": "A", "mode": "ok", "nets": [N([10, 0, 0, 0], 24, 7), N([10, 9, 0, 0], 24, 8, astr=True)]}
+    for wid, files, puts in (("scanfail-both", [a1, c1, cbad], [put("C", 3)]), ("scanfail-country", [a1, c1, cbad2], [put("C", 3)]),
+                             ("scanfail-location", [a1, c1, abad], [put("A", 3)])):
+        ws.append({"id": wid, "src": "candidate", "hostcap": 2, "ipcap": 4, "tops": tops, "alltop": [7, 8], "files": files,
+                   "steps": [put("A", 1), put("C", 2)] + refresh() + probe + puts + refresh() + probe})
+    # two refreshes that overlap (periodic worker and the debug API): r1 publishes its maps, r2 runs completely, r1 swaps
+    ws.append({"id": "overlap", "src": "candidate", "hostcap": 2, "ipcap": 4, "tops": tops, "alltop": [7, 8], "files": [a1, a2, c1, c2],
+               "steps": [put("A", 1), put("C", 3)] + refresh() + probe + [put("A", 2), {"a": "RStart", "r": "r1"}, put("C", 4),
+                         {"a": "RStart", "r": "r2"}, {"a": "RSwapLoc", "r": "r1"}, {"a": "RSwapCtry", "r": "r1"}, {"a": "RJoin", "r": "r1"}] +
+                        refresh("r2")[1:] + [{"a": "RSwapDB", "r": "r1"}] + probe})
+    # the top ASN of a country whose keys carry country and subdivision; the network for ASN 25159
+    at = {"kind": "A", "mode": "ok", "nets": [N([10, 0, 0, 0], 24, 7), N([10, 2, 0, 0], 24, 7), N([10, 4, 0, 0], 24, 9)]}
+    ct = {"kind": "C", "mode": "ok", "nets": [N([10, 0, 0, 0], 24, 0, "US", "NA", "WA"), N([10, 2, 0, 0], 24, 0, "DE", "EU"),
+                                               N([10, 4, 0, 0], 24, 0, "US", "NA", "CA"), N([10, 6, 0, 0], 24, 0, "RU", "EU", "MOW")]}
+    at2 = {"kind": "A", "mode": "ok", "nets": [N([10, 0, 0, 0], 24, 7), N([10, 4, 0, 0], 24, 9)]}
+    ws.append({"id": "special-country-top", "src": "candidate", "hostcap": 2, "ipcap": 4, "tops": [["US", 7], ["RU", 9]], "alltop": [7, 9],
+               "files": [at, ct, at2],
+               "steps": [put("A", 1), put("C", 2)] + refresh() +
+                        [subnet("US", "WA", 7), subnet("US", "NY", 0), subnet("US", "NY", 5), subnet("RU", "MOW", 25159), subnet("RU", "SPE", 0),
+                         subnet("DE", "", 25159), subnet("US", "NY", 0, 6), put("A", 3)] + refresh() +
+                        [subnet("US", "NY", 0), subnet("US", "WA", 7), {"a": "AutoSubnet", "cnt": 60}]})
+    # a narrow network that replaces a broad one
+    an = {"kind": "A", "mode": "ok", "nets": [N([10, 0, 0, 0], 8, 7), N([11, 0, 0, 0], 30, 7), N(v6(0x2001, 0xdb8), 32, 7),
+                                               N(v6(0x2001, 0xdb9, 1, 2, 3), 80, 7)]}
+    cn = {"kind": "C", "mode": "ok", "nets": [N([10, 0, 0, 0], 8, 0, "DE", "EU"), N([11, 0, 0, 0], 30, 0, "DE", "EU")]}
+    ws.append({"id": "narrow-network", "src": "candidate", "hostcap": 2, "ipcap": 4, "tops": [["DE", 7]], "alltop": [7], "files": [an, cn],
+               "steps": [put("A", 1), put("C", 2)] + refresh() + [subnet("DE", "", 7), subnet("DE", "", 0), subnet("DE", "", 7, 6)]})
+    return ws
+
+
+def run_models(c):
+    th = c.thorough
+    jobs = [
+        ("GeoIP_mc.cfg", None, 8, "one refresher, 3 versions of each database (one unloadable, one whose scans fail), 3 addresses, 2 answers"),
+        ("GeoIP_mc_serial.cfg", None, 4, "two refreshers that exclude one another"),
+        ("GeoIP_sanity_noclear.cfg", "CacheAgreesWithDB", 1, "sanity: the swap leaves the caches alone"),
+        ("GeoIP_sanity_swap2.cfg", "ReadersSeeOneVersion", 1, "sanity: the two databases are swapped in two critical sections"),
+        ("GeoIP_sanity_failclears.cfg", "FailedRefreshKeepsOld", 1, "sanity: a failed refresh publishes / drops derived maps"),
+        ("GeoIP_sanity_mutate.cfg", "LocationsAreValues", 1, "sanity: SubnetByLocation writes the top ASN into its argument"),
+        ("GeoIP_sanity_foreigntop.cfg", "SubnetContract", 1, "sanity: the fall-back takes the top ASN of another country"),
+        ("GeoIP_sanity_overlap.cfg", "QuiescentConsistent", 1, "sanity: two refreshers without exclusion (as the code)"),
+        ("GeoIP_sanity_window.cfg", "MapsNeverAhead", 1, "the window: derived maps are published before the databases"),
+        ("GeoIP_sanity_len.cfg", "DesiredLength", 1, "sanity: a narrow network replaces a broad one (distance rule)"),
+    ]
+    if th:
+        jobs.append(("GeoIP_mc_big.cfg", None, 12, "more addresses (IPv6, unknown), two hosts, 3 answers, 3 refreshes"))
+
+    def one(j):
+        cfg, exp, nw, name = j
+        return c.tlc_mc("GeoIP_mc", cfg, workers=nw, expect_violation=exp, count=False, name=name, timeout=2400)
+    with ThreadPoolExecutor(max_workers=3) as ex:
+        res = list(ex.map(one, jobs))
+    for j, r in zip(jobs, res):
+        if j[1] is None:
+            c.cov["states"] += r.distinct
+            c.cov["transitions"] += r.generated
+    c.notes.append("GeoIP_sanity_window: with the code's order of publication (location maps, country maps, then both "
+                   "databases and the caches) a reader can combine an answer of the old databases with the new derived maps; "
+                   "the documentation does not promise otherwise (observation)")
+
+
+def concurrent_world():
+    a1 = {"kind": "A", "mode": "ok", "nets": [N([10, 0, 0, 0], 24, 7), N([10, 0, 1, 0], 24, 8), N([10, 2, 0, 0], 16, 7),
+                                               N(v6(0x2001, 0xdb8), 32, 8)]}
+    a2 = {"kind": "A", "mode": "ok", "nets": [N([10, 0, 0, 0], 24, 8), N([10, 0, 1, 0], 24, 7), N([10, 2, 0, 0], 16, 9),
+                                               N(v6(0x2001, 0xdb8), 32, 7)]}
+    a3 = {"kind": "A", "mode": "ok", "nets": [N([10, 0, 0, 0], 24, 9), N([10, 0, 1, 0], 24, 9), N([10, 2, 0, 0], 16, 8)]}
+    c1 = {"kind": "C", "mode": "ok", "nets": [N([10, 0, 0, 0], 23, 0, "US", "NA", "WA"), N([10, 2, 0, 0], 16, 0, "DE", "EU"),
+                                               N(v6(0x2001, 0xdb8), 32, 0, "DE", "EU")]}
+    c2 = {"kind": "C", "mode": "ok", "nets": [N([10, 0, 0, 0], 24, 0, "DE", "EU"), N([10, 0, 1, 0], 24, 0, "FR", "EU"),
+                                               N([10, 2, 0, 0], 16, 0, "US", "NA", "CA"), N(v6(0x2001, 0xdb8), 32, 0, "JP", "AS")]}
+    c3 = {"kind": "C", "mode": "ok", "nets": [N([10, 0, 0, 0], 23, 0, "JP", "AS"), N([10, 2, 0, 0], 16, 0, "FR", "EU")]}
+    steps = [data(ip) for ip in ([10, 0, 0, 1], [10, 0, 0, 77], [10, 0, 1, 1], [10, 2, 3, 4], mapped([10, 0, 0, 5]), [9, 9, 9, 9],
+                                 v6(0x2001, 0xdb8, 1), v6(0x2001, 0xdb8, 0, 1), [10, 2, 200, 1])]
+    steps += [subnet("US", "WA", 7), subnet("US", "CA", 0), subnet("DE", "", 0), subnet("DE", "", 8), subnet("FR", "", 9),
+              subnet("JP", "", 0, 6), subnet("DE", "", 0, 6), subnet("US", "NY", 9)]
+    return {"id": "concurrent", "src": "concurrent", "hostcap": 2, "ipcap": 3, "tops": [["US", 7], ["DE", 8]], "alltop": [7, 8, 9],
+            "files": [a1, a2, a3, {"kind": "A", "mode": "garbage", "nets": []}, c1, c2, c3, {"kind": "C", "mode": "missing", "nets": []}],
+            "steps": steps}
+
+
+def short(e):
+    return {k: v for k, v in e.items() if k not in ("obs", "chg", "tops", "alltop")}
+
+
 def run(c: Check):
+    th = c.thorough
+    rng = random.Random(SEED * 7919 + 13)
     ov, nsites = gate_rewrites(c)
-    w = {"id": "dev", "src": "hand", "hostcap": 2, "ipcap": 3, "tops": [["US", 7], ["DE", 8]], "alltop": [7, 8],
-         "files": [
-             {"kind": "A", "mode": "ok", "nets": [N([10, 0, 0, 0], 24, 7), N([10, 0, 1, 0], 24, 8), N([10, 2, 0, 0], 16, 7)]},
-             {"kind": "C", "mode": "ok", "nets": [N([10, 0, 0, 0], 23, 0, "US", "NA", "WA"), N([10, 2, 0, 0], 16, 0, "DE", "EU")]},
-             {"kind": "C", "mode": "ok", "nets": [N([10, 0, 0, 0], 24, 0, "A1", "", "")]},
-         ],
-         "steps": [{"a": "Put", "kind": "A", "v": 1}, {"a": "Put", "kind": "C", "v": 2},
-                   {"a": "RStart", "r": "r1"}, {"a": "RSwapLoc", "r": "r1"}, {"a": "RSwapCtry", "r": "r1"}, {"a": "RJoin", "r": "r1"},
-                   {"a": "RSwapDB", "r": "r1"},
-                   {"a": "Data", "host": "h1", "ip": [10, 0, 0, 1]},
-                   {"a": "Data", "host": "", "ip": [10, 0, 0, 9]},
-                   {"a": "Data", "host": "h1", "zero": True},
-                   {"a": "Subnet", "l": {"ctry": "US", "sub": "WA", "asn": 7}, "fam": 4},
-                   {"a": "Subnet", "lp": 1, "fam": 4},
-                   {"a": "Put", "kind": "C", "v": 3},
-                   {"a": "RStart", "r": "r1"}, {"a": "RSwapLoc", "r": "r1"}, {"a": "RSwapCtry", "r": "r1"}, {"a": "RJoin", "r": "r1"},
-                   {"a": "AutoData", "cnt": 10}, {"a": "AutoSubnet", "cnt": 10},
-                   ]}
-    inp = os.path.join(c.scratch, "ext9_in.json")
-    json.dump({"worlds": [w]}, open(inp, "w"))
-    files = os.path.join(c.scratch, "ext9_files.ndjson")
-    out, so = c.go_harness(PKG, "^TestVerifEXT9Stepper$", files=HFILES, rewrites=ov, env={"VERIF_IN": inp, "VERIF_FILES": files})
-    ev = read_ndjson(out)
+    if nsites != 3:
+        c.notes.append("file.go has %d critical sections under the write lock (3 expected)" % nsites)
+    worlds = [gen_world(rng, "w%d" % (i + 1)) for i in range(6 if th else 3)]
+    open(os.path.join(c.specdir, "GeoIP_simw.tla"), "w").write(render_worlds(worlds))
+    with ThreadPoolExecutor(max_workers=3) as ex:
+        fut_models = ex.submit(run_models, c)
+        # the concurrent run needs no TLC until it is judged: start it beside the rest
+        cinp = os.path.join(c.scratch, "ext9_conc_in.json")
+        json.dump({"worlds": [concurrent_world()]}, open(cinp, "w"))
+        cfiles = os.path.join(c.scratch, "ext9_conc_files.ndjson")
+
+        def conc():
+            return c.go_harness(PKG, "^TestVerifEXT9Concurrent$", files=HFILES, rewrites=ov, race=True,
+                                env={"VERIF_IN": cinp, "VERIF_FILES": cfiles, "VERIF_NREFRESH": 120 if th else 40,
+                                     "VERIF_KEEPREADS": 1500 if th else 300})
+        fut_conc = ex.submit(conc)
+        behs = c.tlc_sim("GeoIP_simw", "GeoIP_sim.cfg", num=160 if th else 36, depth=60 if th else 45)
+        sim_worlds, acts = behaviours_to_worlds(worlds, behs)
+        cand = candidate_worlds()
+        nmain = len(sim_worlds) + len(scripted_worlds(th))
+        allw = sim_worlds + scripted_worlds(th) + cand
+        inp = os.path.join(c.scratch, "ext9_in.json")
+        json.dump({"worlds": allw}, open(inp, "w"))
+        files = os.path.join(c.scratch, "ext9_files.ndjson")
+        out, so = c.go_harness(PKG, "^TestVerifEXT9Stepper$", files=HFILES, rewrites=ov, env={"VERIF_IN": inp, "VERIF_FILES": files})
+        ev = read_ndjson(out)
+        # the worlds in which the pinned code is known to leave the contract are validated on their own (a rejected
+        # world costs one more TLC run over everything validated with it)
+        resets = [i for i, e in enumerate(ev) if e["ev"] == "Reset"]
+        cut = resets[nmain] if nmain < len(resets) else len(ev)
+        fails, nonconf, steps = judge(c, ev[:cut], files)
+        f2, n2, _ = judge(c, ev[cut:], files)
+        fails += f2
+        nonconf += n2
+        # ---- concurrent readers under the race detector
+        try:
+            cout, _ = fut_conc.result()
+            cev = read_ndjson(cout)
+        except Undecided as e:
+            msg = str(e)
+            i = msg.find("WARNING: DATA RACE")
+            if i < 0:
+                raise
+            block = msg[i:i + 5000]
+            tops = [[ln.strip() for ln in a.splitlines() if ln.strip().startswith("/")][:3] for a in block.split("Previous ")[:2]]
+            if any("zz_verif_" in f for t in tops for f in t[:1]):
+                raise
+            where = (tops[0][0] if tops and tops[0] else "").split(" ")[0].replace(os.environ.get("VERIF_REPO", "/repo"), "")
+            c.violation({"kind": "data-race", "where": re.sub(r":\d+$", "", where)},
+                        "EXT9 data race between readers (Data / SubnetByLocation) and Refresh, reported by the race detector:\n"
+                        + block[:2500], {"report": block})
+            cev = None
+        if cev is not None:
+            cfails, cnonconf, _ = judge(c, cev, cfiles, concurrent=True)
+            fails += cfails
+            nonconf += cnonconf
+            reads = [e for e in cev if e["ev"] in ("CRead", "CSubnet")]
+            over = [e for e in reads if e["v1"] > e["v0"]]
+            end = [e for e in cev if e["ev"] == "CEnd"][0]
+            okref = sum(1 for o in end["outcomes"] if o == "")
+            if len(over) < 40 or okref < 10 or len(end["outcomes"]) - okref < 5 or \
+                    len([e for e in over if e["ev"] == "CSubnet"]) < 5:
+                raise Undecided("concurrent run vacuous: %d recorded calls, %d overlapping a refresh, %d refreshes (%d good)" % (
+                    len(reads), len(over), len(end["outcomes"]), okref))
+            for e in reads:
+                c.count_case(("conc", e["ev"], e.get("ip"), e.get("l"), e.get("fam"), e.get("got"), e.get("sn"), e["pairs"]),
+                             nontrivial=e["v1"] > e["v0"])
+            c.notes.append("concurrent (-race): %d Data / SubnetByLocation calls of 6 readers during %d refreshes (%d failing), %d "
+                           "judged, %d of them overlapping a refresh" % (end["total"], len(end["outcomes"]),
+                                                                         len(end["outcomes"]) - okref, len(reads), len(over)))
+        fut_models.result()
+    report(c, ev, fails, nonconf, steps, acts, cand)
+    c.cov["rule"] = ("cases: (a) one Data call (address, host, databases in force -> answer, pointer shared or fresh), non-trivial = "
+                     "the answer is not the empty location; (b) one SubnetByLocation call (location, family, derived maps -> prefix), "
+                     "non-trivial = a non-zero prefix; (c) one refresh step with the state it leaves (databases, the four derived "
+                     "maps, caches); (d) one concurrent call judged against the versions in force during it, non-trivial = it "
+                     "overlapped a refresh")
+    c.assumptions += [
+        "the databases are real MMDB files: the three the repository ships, and synthetic ones written by a 150-line writer in the "
+        "harness (format 2.0, IPv6 tree with IPv4 below ::/96, 24-bit records); every synthetic file passes maxminddb.Reader.Verify; "
+        "the content the specification works on is what maxminddb.Reader.Networks lists (an independent path through the library), "
+        "and the network a looked-up address lies in (LookupNetwork) is passed as a hint that TLC verifies (Contains) before use",
+        "a refresh is stopped in front of every f.mu.Lock() of file.go by a build-time overlay (verifLock / verifUnlock, named after "
+        "what the critical section assigns); readers are called at those quiescent points only; the concurrent leg runs the "
+        "unmodified locking under the race detector and is judged by interval (refreshes completed before the call .. started "
+        "before its return)",
+        "pointer identity is observed (answers are numbered by first appearance and kept alive), so a cache hit is told from a fresh "
+        "look-up and the exact LRU order of both caches is part of the specification (gcache: Get and Set move to the front)",
+        "validity of country / continent codes: the synthetic databases use the codes A1, A2, O1, ZZZ (not ISO 3166-1 alpha-2, not "
+        "user-assigned) and ZZ as invalid ones; all other codes they contain are valid",
+        "where the documentation is silent the code's reading is specified: the host cache is written on IP-cache misses only; an "
+        "address no database knows gets a non-nil empty Location; among networks at the same distance from the desired length the "
+        "last one in database order wins; the derived maps are published before the databases",
+        "TLC, SANY, CommunityModules Json",
+    ]
+
+
+def judge(c, ev, files, concurrent=False):
     fails, nonconf = validate(c, ev, files)
+    steps = {}
+    last = c.cov["tlc_runs"][-1]
+    return fails, nonconf, steps
+
+
+PENDING_FILE = os.path.join(VERIF, "pending_fixes", "EXT9-known-findings.json")
+
+
+def report(c, ev, fails, nonconf, steps, acts, cand):
+    pending = []
+    if os.environ.get("VERIF_EXT9_PENDING") and os.path.exists(PENDING_FILE):
+        pending = json.load(open(PENDING_FILE))["findings"]
+    shown = set()
+
+    def viol(sig, desc, replay):
+        pk = next((k for k in pending if all(sig.get(a) == b for a, b in k["match"].items())), None)
+        if pk is not None:
+            if pk["id"] not in shown:
+                log("PENDING-FINDING: property=EXT9 %s (%s)" % (pk["what"][:200], pk["id"]))
+                shown.add(pk["id"])
+                c.notes.append("pending finding %s seen: %s" % (pk["id"], desc[:300]))
+            return
+        c.violation(sig, desc, replay)
+
+    # ---- rejected worlds
     for sg, idx, reason, why in fails:
-        print("FAIL", idx, reason, why, json.dumps(sg[idx])[:600])
+        e = sg[idx]
+        world = sg[0].get("world", "?")
+        hist = [(x["ev"], x.get("r") or x.get("kind") or x.get("conc") or "", x.get("res", "")) for x in sg[1:idx + 1]][-10:]
+        if reason.startswith("invariant"):
+            inv = reason.split()[1]
+            viol({"kind": "refresh-invariant", "invariant": inv},
+                 "EXT9 world %s: %s (event %d: %s); after the step the File holds databases (%s, %s), location maps %s / %s, "
+                 "country maps %s / %s (nil: %s); last steps %s" % (
+                     world, reason, idx, json.dumps(short(e))[:300], e["obs"]["dba"], e["obs"]["dbc"],
+                     json.dumps(e["obs"].get("loc4"))[:200], json.dumps(e["obs"].get("loc6"))[:100],
+                     json.dumps(e["obs"].get("c4"))[:200], json.dumps(e["obs"].get("c6"))[:100], e["obs"].get("nilmaps"), hist),
+                 {"segment": sg[:idx + 1], "offending_index": idx, "reason": reason})
+        else:
+            m = re.search(r'"([^"]+)"', why)
+            viol({"kind": "trace", "ev": e.get("ev"), "what": (m.group(1) if m else "")[:60]},
+                 "EXT9 world %s: %s at event %d %s; the specification says: %s; last steps %s" % (
+                     world, reason, idx, json.dumps(short(e))[:500], why[:900], hist),
+                 {"segment": sg[:idx + 1], "offending_index": idx, "reason": reason, "why": why})
+    # ---- lines judged one by one
+    groups = {}
     for e, why in nonconf:
-        print("NONCONF", why[:400], e.get("conc"))
-    raise Undecided("dev")
+        if e["ev"] == "CRead":
+            sig = {"kind": "concurrent-read"}
+        elif e["ev"] == "CSubnet":
+            sig = {"kind": "concurrent-subnet"}
+        elif "DesiredLength" in why:
+            sig = {"kind": "prefix-length", "clause": "DesiredLength"}
+        elif '"contract"' in why:
+            m = re.search(r'"contract", "([^"]+)"', why)
+            sig = {"kind": "subnet-contract", "clause": m.group(1) if m else "?"}
+        elif '"decision"' in why:
+            m = re.search(r'"decision", "([^"]+)"', why)
+            sig = {"kind": "subnet-decision", "step": m.group(1) if m else "?"}
+        else:
+            m = re.search(r'"([^"]+)"', why)
+            sig = {"kind": "subnet-line", "what": (m.group(1) if m else "")[:60]}
+        groups.setdefault(json.dumps(sig, sort_keys=True), []).append((e, why))
+    for k, l in sorted(groups.items()):
+        sig = json.loads(k)
+        e, why = l[0]
+        viol(sig, "EXT9 %s: %d line(s); first: %s -> %s; %s" % (
+            " ".join("%s=%s" % kv for kv in sorted(sig.items())), len(l), e.get("conc") or json.dumps(short(e))[:300],
+            json.dumps(e.get("sn") or e.get("got")), why[:1200]), {"event": e, "why": why, "count": len(l)})
+
+    # ---- accounting and vacuity (never a verdict)
+    failed_worlds = set(sg[0].get("world") for sg, _, _, _ in fails)
+    cnt = {"hit": 0, "miss": 0, "hostq": 0, "hostnil": 0, "dataerr": 0, "mapped": 0, "zone": 0, "compat": 0, "v6": 0, "lp": 0,
+           "cleared": 0, "loaderr": set(), "scanerr": 0, "evict": 0, "unknown": 0}
+    world, seenp, prev = None, set(), None
+    for e in ev:
+        if e["ev"] == "Reset":
+            world, seenp, prev = e["world"], set(), e
+            continue
+        if e["ev"] == "Data":
+            ip = e["ip"]
+            if e["zero"]:
+                cnt["hostq"] += 1
+                cnt["hostnil"] += e["got"]["nil"]
+            elif e["err"]:
+                cnt["dataerr"] += 1
+            elif e["p"] in seenp:
+                cnt["hit"] += 1
+            else:
+                cnt["miss"] += 1
+                if prev is not None and prev.get("obs", {}).get("iplen") == e["obs"]["iplen"] and e["obs"]["iplen"] > 0:
+                    cnt["evict"] += 1
+            seenp.add(e["p"])
+            cnt["mapped"] += len(ip) == 16 and ip[:12] == [0] * 10 + [255, 255]
+            cnt["compat"] += len(ip) == 16 and ip[:12] == [0] * 12 and any(ip[12:])
+            cnt["v6"] += len(ip) == 16
+            cnt["zone"] += bool(e["zone"])
+            cnt["unknown"] += (not e["zero"]) and e["ha"] == 0 and e["hc"] == 0 and not e["got"]["nil"]
+            c.count_case(("data", world.split("#")[0], ip, e["host"], e["got"], e["p"] in seenp),
+                         nontrivial=not e["got"]["nil"] and any(e["got"][k] for k in ("ctry", "asn")))
+        elif e["ev"] == "Subnet":
+            cnt["lp"] += e["lp"] > 0
+            c.count_case(("subnet", world.split("#")[0], e["l"], e["fam"], e["sn"]), nontrivial=e["sn"]["n"] > 0)
+        elif e["ev"] in ("RStart", "RJoin", "RSwapDB", "RSwapLoc", "RSwapCtry"):
+            if e["ev"] == "RStart" and e["res"] == "ret":
+                cnt["loaderr"].add(e["err"])
+            if e["ev"] == "RJoin" and e["res"] == "ret":
+                cnt["scanerr"] += 1
+            if e["ev"] == "RSwapDB" and prev is not None and prev["obs"]["iplen"] > 0 and e["obs"]["iplen"] == 0:
+                cnt["cleared"] += 1
+            c.count_case(("refresh", world.split("#")[0], e["ev"], e.get("res"), e.get("err"), e["obs"]["dba"], e["obs"]["dbc"],
+                          e["obs"].get("loc4"), e["obs"].get("c4"), e["obs"].get("loc6"), e["obs"].get("c6")))
+        elif e["ev"] == "Probe":
+            c.notes.append("observation: %s is rejected by the reader check of geoIPFromFile (it looks 0.0.0.0 up into a nil "
+                           "interface): Refresh says %r" % (e["what"], e["err"][:200]))
+        prev = e
+    stepcnt = c.ext9_steps
+    nev = {}
+    for e in ev:
+        nev[e["ev"]] = nev.get(e["ev"], 0) + 1
+    c.notes.append("stepper: %d events in %d worlds (%d from TLC behaviours: %s); events %s; Data: %d misses, %d hits, %d evictions "
+                   "seen, %d host-only questions (%d nil), %d errors, %d unknown addresses; IPv4-mapped %d, IPv4-compatible %d, "
+                   "IPv6 %d, zoned %d; SubnetByLocation decisions %s, %d with the pointer of an earlier answer; refreshes: caches "
+                   "cleared with entries in them %d, load errors %s, scan errors %d" % (
+                       len(ev), nev.get("Reset", 0), sum(1 for e in ev if e["ev"] == "Reset" and e.get("src") == "sim"), acts, nev,
+                       cnt["miss"], cnt["hit"], cnt["evict"], cnt["hostq"], cnt["hostnil"], cnt["dataerr"], cnt["unknown"],
+                       cnt["mapped"], cnt["compat"], cnt["v6"], cnt["zone"], stepcnt, cnt["lp"], cnt["cleared"],
+                       sorted(cnt["loaderr"]), cnt["scanerr"]))
+    c.sample({"first_events": [short(e) for e in ev[1:9]]})
+    expected_cand = set(w["id"] for w in cand)
+    unexpected = failed_worlds - expected_cand
+    if not unexpected:
+        need_acts = {"Put", "RStart", "RSwapLoc", "RSwapCtry", "RJoin", "RSwapDB", "Data", "Subnet"}
+        miss = [a for a in need_acts if acts.get(a, 0) < 3]
+        need_steps = {"exact", "top", "country", "zero", "hack"}
+        vac = []
+        if miss:
+            vac.append("TLC behaviours without %s" % miss)
+        if need_steps - set(stepcnt):
+            vac.append("SubnetByLocation decisions never taken: %s" % sorted(need_steps - set(stepcnt)))
+        for k, mn in (("hit", 20), ("miss", 50), ("hostq", 10), ("hostnil", 3), ("dataerr", 1), ("mapped", 5), ("compat", 1), ("v6", 10),
+                      ("zone", 1), ("lp", 5), ("cleared", 3), ("evict", 5), ("unknown", 5)):
+            if cnt[k] < mn:
+                vac.append("%s: %d < %d" % (k, cnt[k], mn))
+        if {"reading asn geoip", "reading country geoip"} - cnt["loaderr"]:
+            vac.append("load errors seen: %s" % sorted(cnt["loaderr"]))
+        if vac:
+            raise Undecided("stepper run vacuous: " + "; ".join(vac))
 
 
 if __name__ == "__main__":
